@@ -120,7 +120,7 @@ static void do_acts(ActC *acts, int n) {
             if (fork() == 0) { for (int i = 0; i < 3000 && getppid() == parent; i++) usleep(20000); _exit(0); }
             break;
         }
-        case 'I': signal(SIGALRM, SIG_IGN); break;
+        case 'I': signal(acts[i].arg ? SIGPIPE : SIGALRM, SIG_IGN); break;
         case 'Q': { void (*old)(int) = signal(SIGINT, SIG_DFL); assert_that(old == SIG_DFL, is_true); break; }      /* the test finds Ctrl-C in its default disposition */          /* code under test that uses the alarm signal itself and leaves it ignored */
         case 'X': assert_true_with_message(0, "%s", acts[i].text); break;           /* the text as an argument */
         case 'Y': {                                                                  /* the text as the (percent-doubled) format, as assert_that() passes it */
@@ -194,6 +194,7 @@ static int parse_acts(char *s, ActC **out) {
         else if (!strcmp(tok, "S")) a.kind = 'S';
         else if (!strcmp(tok, "AX")) a.kind = 'A';
         else if (!strcmp(tok, "IA")) a.kind = 'I';
+        else if (!strcmp(tok, "IP")) { a.kind = 'I'; a.arg = 1; }      /* code under test that ignores SIGPIPE, as network code does */
         else if (!strcmp(tok, "HP")) a.kind = 'H';
         else if (!strcmp(tok, "QI")) a.kind = 'Q';
         else if (tok[0] == 'X' || tok[0] == 'Y') { a.kind = tok[0]; a.text = unhex_text(tok + 1); }
